@@ -146,3 +146,73 @@ class Graph:
                 continue
             out.append(r)
         return out
+
+
+# -- in-process runs: opened repositories are garbage the collector cannot free -----------
+# (bound methods of the repository / pack collection are held by the Rust index and
+# versioned-file objects, a cycle invisible to gc: ~30 kB per opened repository, and the
+# oracles of these checks open dozens of fresh objects per run).  Every pack repository
+# created by a run's thread is remembered and taken apart when the run ends.
+
+_tracked = None
+
+
+def install_repo_tracker():
+    """Idempotent; called from warm().  Wraps PackRepository.__init__ to remember the
+    instance in a per-thread list (no effect on behaviour)."""
+    global _tracked
+    if _tracked is not None:
+        return
+    import threading
+
+    from breezy.bzr import pack_repo
+
+    _tracked = threading.local()
+    orig = pack_repo.PackRepository.__init__
+
+    def __init__(self, *a, **kw):
+        orig(self, *a, **kw)
+        lst = getattr(_tracked, "repos", None)
+        if lst is not None:
+            lst.append(self)
+
+    pack_repo.PackRepository.__init__ = __init__
+
+
+def start_tracking():
+    if _tracked is not None:
+        _tracked.repos = []
+
+
+def dispose_repos():
+    """Break the cycles of every repository object this thread created since
+    start_tracking(); the objects must not be used afterwards."""
+    if _tracked is None:
+        return
+    repos = getattr(_tracked, "repos", None) or []
+    _tracked.repos = None
+    for r in repos:
+        d = r.__dict__
+        pc = d.get("_pack_collection")
+        if pc is not None:
+            # the combined indices (Rust objects) know each other: a cycle gc cannot see
+            for name in ("revision_index", "inventory_index", "text_index", "signature_index", "chk_index"):
+                agg = getattr(pc, name, None)
+                ci = getattr(agg, "combined_index", None)
+                if ci is not None:
+                    try:
+                        ci.set_sibling_indices([])
+                    except Exception:  # noqa: BLE001
+                        pass
+        for name in ("revisions", "inventories", "texts", "signatures", "chk_bytes", "_pack_collection", "control_files"):
+            o = d.get(name)
+            if o is not None and hasattr(o, "__dict__"):
+                for sub in list(o.__dict__.values()):
+                    if hasattr(sub, "__dict__") and type(sub).__module__.startswith(("breezy.", "bzrformats")):
+                        try:
+                            sub.__dict__.clear()
+                        except Exception:  # noqa: BLE001
+                            pass
+                o.__dict__.clear()
+        d.clear()
+    del repos[:]
